@@ -22,7 +22,15 @@ def _idx(pool, obj):
 
 class Gen:
     def __init__(self, rng, w: World, hostile: float, weights: dict | None = None, avoid: set | None = None,
-                 collaborators: bool = False):
+                 collaborators: bool = False, extremes: float = 0.0, targeted_rauw: float = 0.0):
+        # extremes=p: with probability p every size / index / slice-bound parameter is drawn from the far
+        # ends of its range instead (negative sizes; indices far below -len / far above len, up to values
+        # that do not fit a machine word).  0.0 (default) draws nothing extra from the rng.
+        self.extremes = extremes
+        # targeted_rauw=p: with probability p a replace_all_uses_with call is assembled by inspecting the
+        # world: pairs that really rewire something, and a pair that must be rejected (a graph output whose
+        # replacement another graph owns / graph outputs not to be replaced) at a random position among them.
+        self.targeted_rauw = targeted_rauw
         # collaborators=True: values may be backed by tensors whose own name setter can reject a name
         # (proto-backed tensor + a lone-surrogate str; a user tensor class that validates names)
         self.collaborators = collaborators
@@ -121,6 +129,20 @@ class Gen:
     def small(self, lo=-3, hi=5):
         return self.rng.randint(lo, hi)
 
+    # ---- far ends of the ranges (only with extremes > 0) ---------------------------------------
+    def x(self) -> bool:
+        return self.extremes > 0 and self.rng.random() < self.extremes
+
+    def far_index(self, n: int) -> int:
+        """An index far outside [-n, n): just past both ends, far past them, past 32/64-bit words."""
+        return self.rng.choice([-n - 1, -n - 2, -n - 7, n, n + 1, n + 7, -10**6, 10**6, -2**31 - 1, 2**31,
+                                -2**63 - 1, 2**63, -2**70, 2**70])
+
+    def far_size(self, n: int) -> int:
+        """An invalid size of something that has n elements now: negative, from -1 to far below -n.
+        (Huge positive sizes are valid requests that allocate that many elements - not generated.)"""
+        return self.rng.choice([-1, -1, -2, -3, -n, -n - 1, -n - 2, -10**6, -2**63 - 1, -2**70])
+
     # ---- one operation ----------------------------------------------------------------------
     def op(self) -> list:
         w, rng = self.w, self.rng
@@ -160,6 +182,8 @@ class Gen:
         attr_graph = None
         if rng.random() < 0.12 and self.w.graphs:
             attr_graph = self.any_g()
+        if self.x():
+            num = self.far_size(len(outs) if outs else 0)
         return ["node", rng.choice(OPTYPES), ins, num, outs, cont, rng.choice([None, None, "n", "node_Add_0", "m"]), attr_graph]
 
     def _graph(self):
@@ -229,18 +253,84 @@ class Gen:
         node = self.w.nodes[n % len(self.w.nodes)]
         hi = len(node.inputs)
         idx = self.small(-1, hi + 1) if self.h() else (self.rng.randrange(hi) if hi else 0)
+        if self.x():
+            idx = self.far_index(hi)
         return ["rin", n, idx, None if self.rng.random() < 0.15 else self.any_v()]
 
     def _rsz_in(self):
-        return ["rsz_in", self.any_n(), self.rng.randint(0, 4)]
+        n, k = self.any_n(), self.rng.randint(0, 4)
+        if self.x():
+            k = self.far_size(len(self.w.nodes[n % len(self.w.nodes)].inputs))
+        return ["rsz_in", n, k]
 
     def _rsz_out(self):
-        return ["rsz_out", self.any_n(), self.rng.randint(0, 4)]
+        n, k = self.any_n(), self.rng.randint(0, 4)
+        if self.x():
+            k = self.far_size(len(self.w.nodes[n % len(self.w.nodes)].outputs))
+        return ["rsz_out", n, k]
 
     def _rauw(self):
+        if self.targeted_rauw > 0 and self.rng.random() < self.targeted_rauw:
+            t = self._rauw_targeted(1)
+            if t is not None:
+                return ["rauw", t[0][0], t[1][0], t[2]]
         return ["rauw", self.any_v(), self.any_v(), self.rng.random() < 0.5]
 
+    # -- replace_all_uses_with assembled from the live world (only with targeted_rauw > 0)
+    def _rauw_targeted(self, k):
+        """(values, replacements, replace_graph_outputs) of k pairs, or None when the world has nothing to
+        rewire.  Every pair but (possibly) one is applicable AND effective (the value has consumers or is a
+        graph output); the rejected pair - if any - sits at a random position among them."""
+        rng, vals = self.rng, self.w.values
+        try:
+            own = []
+            for v in vals:
+                owned = v.is_graph_input() or v.is_graph_output() or v.is_initializer()
+                own.append(v.graph if owned else None)
+            outs = [i for i, v in enumerate(vals) if v.is_graph_output()]
+            used = [i for i, v in enumerate(vals) if v.uses() and not v.is_graph_output()]
+        except Exception:  # noqa: BLE001 - a world broken by an earlier call: draw blindly
+            return None
+        rgo = rng.random() < 0.7
+        a, b = [], []
+        for _ in range(k):
+            if rgo and outs and (not used or rng.random() < 0.5):
+                i = rng.choice(outs)
+                g = vals[i].graph
+                cands = [j for j, o in enumerate(own) if (o is None or o is g) and j != i]
+            elif used:
+                i = rng.choice(used)
+                cands = [j for j in range(len(vals)) if j != i]
+            else:
+                return None
+            if not cands:
+                return None
+            a.append(i)
+            b.append(rng.choice(cands))
+        if rng.random() < 0.75:
+            # the pair that must be rejected
+            bad = None
+            if rgo or rng.random() < 0.7:
+                # a graph output of graph A whose replacement is owned by another graph B
+                pairs = [(i, j) for i in outs for j, o in enumerate(own) if o is not None and o is not vals[i].graph]
+                if pairs:
+                    bad = rng.choice(pairs)
+            if bad is None and not rgo and outs:
+                bad = (rng.choice(outs), self.any_v())  # graph outputs are not to be replaced
+            if bad is not None:
+                if k == 1:
+                    a, b = [bad[0]], [bad[1]]
+                else:
+                    p = rng.randrange(k + 1)  # every position, first and last included
+                    a.insert(p, bad[0])
+                    b.insert(p, bad[1])
+        return a, b, rgo
+
     def _c_rauw(self):
+        if self.targeted_rauw > 0 and self.rng.random() < self.targeted_rauw:
+            t = self._rauw_targeted(self.rng.randint(1, 3))
+            if t is not None:
+                return ["c_rauw", t[0], t[1], t[2]]
         k = self.rng.randint(1, 3)
         a = [self.any_v() for _ in range(k)]
         b = [self.any_v() for _ in range(k if not self.h() else self.rng.randint(0, 3))]
@@ -265,6 +355,8 @@ class Gen:
 
     def _io_index(self, c, which):
         n = self._io_len(c, which)
+        if self.x():
+            return self.far_index(n)
         if self.h() or n == 0:
             return self.small(-n - 1, n + 1)
         return self.rng.randrange(-n, n)
@@ -316,7 +408,15 @@ class Gen:
     def _io_setslice(self):
         c, wh = self.any_c(), self._which()
         a = self.small(-2, 3)
-        return ["io_setslice", c, wh, a, a + self.rng.randint(0, 2), self.values_list(self.cont_graph(c), wh == "inputs", 2)]
+        b = a + self.rng.randint(0, 2)
+        if self.x():
+            a, b = self._far_bounds(c, wh, a, b)
+        return ["io_setslice", c, wh, a, b, self.values_list(self.cont_graph(c), wh == "inputs", 2)]
+
+    def _far_bounds(self, c, wh, a, b):
+        n = self._io_len(c, wh)
+        r = self.rng.randrange(3)
+        return (self.far_index(n) if r != 1 else a), (self.far_index(n) if r != 0 else b)
 
     def _io_setslice3(self):
         c, wh = self.any_c(), self._which()
@@ -324,6 +424,8 @@ class Gen:
         step = self.rng.choice([-1, -1, 2, -2, 3])
         a = self.rng.choice([None, None, 0, 1, -1, n])
         b = self.rng.choice([None, None, 0, 1, -1, n])
+        if self.x():
+            a, b = self._far_bounds(c, wh, a, b)
         conts = self.w.containers()
         o = conts[c % len(conts)]
         sel = len(list(o.inputs if wh == "inputs" else o.outputs)[a:b:step])
@@ -337,8 +439,10 @@ class Gen:
     def _io_delslice3(self):
         c, wh = self.any_c(), self._which()
         n = self._io_len(c, wh)
-        return ["io_delslice3", c, wh, self.rng.choice([None, 0, 1, -1, n]), self.rng.choice([None, 0, -1, n]),
-                self.rng.choice([-1, 2, -2])]
+        a, b = self.rng.choice([None, 0, 1, -1, n]), self.rng.choice([None, 0, -1, n])
+        if self.x():
+            a, b = self._far_bounds(c, wh, a, b)
+        return ["io_delslice3", c, wh, a, b, self.rng.choice([-1, 2, -2])]
 
     def _io_del(self):
         c, wh = self.any_c(), self._which()
@@ -347,7 +451,10 @@ class Gen:
     def _io_delslice(self):
         c, wh = self.any_c(), self._which()
         a = self.small(-2, 3)
-        return ["io_delslice", c, wh, a, a + self.rng.randint(0, 2)]
+        b = a + self.rng.randint(0, 2)
+        if self.x():
+            a, b = self._far_bounds(c, wh, a, b)
+        return ["io_delslice", c, wh, a, b]
 
     def _io_reverse(self):
         return ["io_reverse", self.any_c(), self._which()]
